@@ -19,6 +19,56 @@ section
 variable {s : Sched} {z : Zone} {b : Int → Int} (H : HourZone z b)
 include H
 
+/-- One pass through the five loops on an hour zone. -/
+def PassPostD (s : Sched) (z : Zone) (b : Int → Int) (t0 tin : Int) (ain : Bool) : PassOut → Prop
+  | .wrap t' a' => a' = true ∧ QWD s z b t0 tin ain t'
+  | .done r => Matches s z r ∧ NoMatchB s z t0 r
+  | .fuel => False
+
+theorem pass_ruleD (t0 t : Int) (a : Bool) (hinv : InvD s z b t0 t a) :
+    PassPostD s z b t0 t a (pass s z t a) := by
+  simp only [pass]
+  have hprog : Prog t a t a := by
+    simp only [Prog]; cases a <;> simp
+  have hm := month_ruleD H t0 t a t a ⟨hprog, hinv⟩
+  cases hml : monthLoop s z innerFuel t a with
+  | fuel => rw [hml] at hm; exact hm.elim
+  | wrap t' a' => rw [hml] at hm; exact hm
+  | next t1 a1 =>
+  rw [hml] at hm
+  simp only [LoopOut.andThen]
+  have hd := day_ruleD H t0 t a t1 a1 ⟨hm.1.1, hm.1.2, hm.2⟩
+  cases hdl : dayLoop s z innerFuel t1 a1 with
+  | fuel => rw [hdl] at hd; exact hd.elim
+  | wrap t' a' => rw [hdl] at hd; exact hd
+  | next t2 a2 =>
+  rw [hdl] at hd
+  simp only [LoopOut.andThen]
+  have hh := hour_ruleD H t0 t a t2 a2 ⟨hd.1.1, hd.1.2.1, hd.1.2.2, hd.2⟩
+  cases hhl : hourLoop s z innerFuel t2 a2 with
+  | fuel => rw [hhl] at hh; exact hh.elim
+  | wrap t' a' => rw [hhl] at hh; exact hh
+  | next t3 a3 =>
+  rw [hhl] at hh
+  simp only [LoopOut.andThen]
+  have hmi := minute_ruleD H t0 t a t3 a3
+    ⟨hh.1.1, hh.1.2.1, hh.1.2.2.1, hh.1.2.2.2, hh.2⟩
+  cases hmil : minuteLoop s z innerFuel t3 a3 with
+  | fuel => rw [hmil] at hmi; exact hmi.elim
+  | wrap t' a' => rw [hmil] at hmi; exact hmi
+  | next t4 a4 =>
+  rw [hmil] at hmi
+  simp only [LoopOut.andThen]
+  have hs := second_ruleD H t0 t a t4 a4
+    ⟨hmi.1.1, hmi.1.2.1.1, hmi.1.2.2.1, hmi.1.2.2.2.1, hmi.1.2.2.2.2, hmi.2⟩
+  cases hsl : secondLoop s z innerFuel t4 a4 with
+  | fuel => rw [hsl] at hs; exact hs.elim
+  | wrap t' a' => rw [hsl] at hs; exact hs
+  | next t5 a5 =>
+  rw [hsl] at hs
+  simp only [LoopOut.andThen]
+  exact ⟨hs.2, hs.1⟩
+
 theorem nextFrom_ruleD (t0 yl B : Int) (hB : ∀ u, year z u ≤ yl → u < B) :
     ∀ (f : Nat) (t : Int) (a : Bool), InvD s z b t0 t a →
       B - t + (if a then 0 else 3600) < f → 0 < f →
@@ -33,9 +83,13 @@ theorem nextFrom_ruleD (t0 yl B : Int) (hB : ∀ u, year z u ≤ yl → u < B) :
     · exact ⟨t, by assumption, hinv.1⟩
     · rename_i hy
       have hlt := hB t (by omega)
-      have hwrap : ∀ t' a', a' = true ∧ QWD s z b t0 t a t' →
-          NextPostD s z t0 yl (nextFrom s z yl f t' a') := by
-        intro t' a' ⟨ha, ⟨hq1, hq2⟩, hinv'⟩
+      have hp := pass_ruleD H (s := s) t0 t a hinv
+      cases hps : pass s z t a with
+      | fuel => rw [hps] at hp; exact hp.elim
+      | done r => rw [hps] at hp; exact hp
+      | wrap t' a' =>
+        rw [hps] at hp
+        obtain ⟨ha, ⟨hq1, hq2⟩, hinv'⟩ := hp
         subst ha
         have hf' : B - t' + (if true = true then 0 else 3600) < (f : Int) := by
           simp only [if_true]
@@ -43,46 +97,6 @@ theorem nextFrom_ruleD (t0 yl B : Int) (hB : ∀ u, year z u ≤ yl → u < B) :
           · have := hq2 rfl; simp at hf; omega
           · have := hq1 rfl; simp at hf; omega
         exact ih t' true hinv' hf' (by cases a <;> simp at hf <;> omega)
-      have hprog : Prog t a t a := by
-        simp only [Prog]; cases a <;> simp
-      have hm := month_ruleD H t0 t a t a ⟨hprog, hinv⟩
-      cases hml : monthLoop s z innerFuel t a with
-      | fuel => rw [hml] at hm; exact hm.elim
-      | wrap t' a' => rw [hml] at hm; exact hwrap t' a' hm
-      | next t1 a1 =>
-      rw [hml] at hm
-      simp only [LoopOut.andThen]
-      have hd := day_ruleD H t0 t a t1 a1 ⟨hm.1.1, hm.1.2, hm.2⟩
-      cases hdl : dayLoop s z innerFuel t1 a1 with
-      | fuel => rw [hdl] at hd; exact hd.elim
-      | wrap t' a' => rw [hdl] at hd; exact hwrap t' a' hd
-      | next t2 a2 =>
-      rw [hdl] at hd
-      simp only [LoopOut.andThen]
-      have hh := hour_ruleD H t0 t a t2 a2 ⟨hd.1.1, hd.1.2.1, hd.1.2.2, hd.2⟩
-      cases hhl : hourLoop s z innerFuel t2 a2 with
-      | fuel => rw [hhl] at hh; exact hh.elim
-      | wrap t' a' => rw [hhl] at hh; exact hwrap t' a' hh
-      | next t3 a3 =>
-      rw [hhl] at hh
-      simp only [LoopOut.andThen]
-      have hmi := minute_ruleD H t0 t a t3 a3
-        ⟨hh.1.1, hh.1.2.1, hh.1.2.2.1, hh.1.2.2.2, hh.2⟩
-      cases hmil : minuteLoop s z innerFuel t3 a3 with
-      | fuel => rw [hmil] at hmi; exact hmi.elim
-      | wrap t' a' => rw [hmil] at hmi; exact hwrap t' a' hmi
-      | next t4 a4 =>
-      rw [hmil] at hmi
-      simp only [LoopOut.andThen]
-      have hs := second_ruleD H t0 t a t4 a4
-        ⟨hmi.1.1, hmi.1.2.1.1, hmi.1.2.2.1, hmi.1.2.2.2.1, hmi.1.2.2.2.2, hmi.2⟩
-      cases hsl : secondLoop s z innerFuel t4 a4 with
-      | fuel => rw [hsl] at hs; exact hs.elim
-      | wrap t' a' => rw [hsl] at hs; exact hwrap t' a' hs
-      | next t5 a5 =>
-      rw [hsl] at hs
-      simp only [LoopOut.andThen]
-      exact ⟨hs.2, hs.1⟩
 
 /-- Five more local years are fewer than 2233 days plus 52 hours away. -/
 theorem year_limit_boundD (t0 u : Int) (h : year z u ≤ year z t0 + 5) : u < t0 + 193200000 := by
